@@ -12,7 +12,8 @@ N(i) == NatLit(i)
 V(n) == Var(n)
 L(s) == Print1(StrL(s))
 Nm(p, i) == p \o ToString(i)
-Sizes == IF Quick THEN {9, 10, 11} ELSE {9, 10, 11, 12, 20, 33}
+\* 9/10/11: one digit to two; 13: Go's sort switches algorithm above 12 elements; 16/17, 32/33, 64/65: pools and buffers sized by a power of two
+Sizes == IF Quick THEN {9, 10, 11, 13, 17, 33} ELSE {9, 10, 11, 12, 13, 16, 17, 20, 32, 33, 64, 65}
 RECURSIVE SumOf(_, _, _)
 SumOf(p, i, n) == IF i = n THEN V(Nm(p, i)) ELSE Bin("+", V(Nm(p, i)), SumOf(p, i + 1, n))
 RECURSIVE Chain(_, _, _)          \* e1 op (e2 op (e3 ...)) with explicit groups: one temporary per level
@@ -34,7 +35,9 @@ Nest(d, n) == IF d > n THEN <<Compound("acc", "+", N(1))>>
               ELSE <<For3(Def1(Nm("j", d), N(0)), CmpE("<", V(Nm("j", d)), N(2)), Inc(Nm("j", d)), <<If1(CmpE("==", V(Nm("j", d)), N(0)), Nest(d + 1, n))>> \o <<Compound("acc", "+", N(d))>>)>>
 Count(n) == <<Def1("c", N(0)), ForCond(CmpE("<", V("c"), N(n * 10 + 5)), <<Inc("c")>>), Print1(V("c")), Def1("s", StrL("")), For3(Def1("i", N(0)), CmpE("<", V("i"), N(n + 2)), Inc("i"), <<Compound("s", "+", Itoa(V("i")))>>),
             PrintS(<<V("s"), LenE(V("s"))>>)>>
-C01 == {CaseOf("scale/C01/temps/" \o ToString(n), Temps(n)) : n \in Sizes}
+SwitchMid(n, hit, at) == <<Def1("k", N(hit)), SwitchAt(V("k"), [i \in 1..n |-> CaseB(N(i), <<PrintS(<<StrL("case"), N(i)>>)>>)], <<L("default")>>, TRUE, at)>>
+C01 == {CaseOf("scale/C01/switchmid/" \o ToString(n) \o "-" \o ToString(h) \o "@" \o ToString(at), SwitchMid(n, h, at)) : n \in Sizes, h \in {1, 99}, at \in {0, 5}} \cup
+       {CaseOf("scale/C01/temps/" \o ToString(n), Temps(n)) : n \in Sizes}
        \cup {CaseOf("scale/C01/deep/" \o ToString(n), Deep(n)) : n \in Sizes}
        \cup {CaseOf("scale/C01/elseifs/" \o ToString(n) \o "-" \o ToString(h), ElseIfs(n, h)) : n \in Sizes, h \in {1, 9, 10, 11, 99}}
        \cup {CaseOf("scale/C01/seqloops/" \o ToString(n), SeqLoops(n)) : n \in Sizes}
@@ -82,7 +85,8 @@ C03 == {CaseOf("scale/C03/slices/" \o ToString(n), ManySlices(n)) : n \in Sizes}
 Probe == <<Def1("cnt", N(0)), Func("e", <<Param("id", "int")>>, <<"int">>, <<Inc("cnt"), PrintS(<<StrL("e"), V("id"), V("cnt")>>), RetS(<<V("id")>>)>>)>>
 RECURSIVE SumE(_, _)
 SumE(i, n) == IF i = n THEN CallE("e", <<N(i)>>) ELSE Bin("+", CallE("e", <<N(i)>>), SumE(i + 1, n))
-C04 == {CaseOf("scale/C04/operands/" \o ToString(n), Probe \o <<Print1(SumE(1, n))>>) : n \in Sizes}
+C04 == {CaseOf("scale/C04/switchmid/" \o ToString(n) \o "@" \o ToString(at), Probe \o <<SwitchAt(N(n), [i \in 1..n |-> CaseB(CallE("e", <<N(i)>>), <<PrintS(<<StrL("case"), N(i)>>)>>)], <<L("default")>>, TRUE, at)>>) : n \in Sizes, at \in {0, 5}} \cup
+       {CaseOf("scale/C04/operands/" \o ToString(n), Probe \o <<Print1(SumE(1, n))>>) : n \in Sizes}
        \cup {CaseOf("scale/C04/args/" \o ToString(n), Probe \o <<Func("sink", [i \in 1..n |-> Param(Nm("a", i), "int")], <<>>, <<PrintS(<<V("a1"), V(Nm("a", n))>>)>>),
                                                                   ExprS(CallE("sink", [i \in 1..n |-> CallE("e", <<N(i)>>)])), PrintS([i \in 1..n |-> CallE("e", <<N(100 + i)>>)])>>) : n \in Sizes}
        \cup {CaseOf("scale/C04/conds/" \o ToString(n), Probe \o <<If([i \in 1..n |-> Branch(CmpE("==", CallE("e", <<N(i)>>), N(n)), <<PrintS(<<StrL("hit"), N(i)>>)>>)], <<L("none")>>),
@@ -104,6 +108,50 @@ C18 == {WCase("scale/C18/args/" \o ToString(n), <<Def1("v", StrL("two words")), 
                                                          Def(<<"o", "e", "c">>, <<App([i \in 1..n |-> Stage(Nm("q", i), IF i = n THEN <<StrL("x9")>> ELSE <<>>)])>>), PrintS(<<V("o"), V("c")>>)>>, <<"alog">>) : n \in {4, 5, 6}}
        \cup {WCase("scale/C18/calls/" \o ToString(n), <<For3(Def1("i", N(0)), CmpE("<", V("i"), N(n)), Inc("i"), <<Def(<<"o", "e", "c">>, <<App(<<Stage("pa", <<Bin("+", StrL("x"), Itoa(V("i"))), Itoa(Bin("*", V("i"), N(11)))>>)>>)>>), PrintS(<<V("o"), V("c")>>)>>)>>, <<"alog">>)
              : n \in Sizes}
-All == C01 \cup C02 \cup C03 \cup C04 \cup C17 \cup C18
+
+\* ---- C06: a type error at every position of long parameter lists, result lists, element lists and value lists ------------
+\* verdicts come from TshStatic (a check that looks at the first few positions only accepts the late mismatch)
+RECURSIVE DeepTy(_, _, _)
+DeepTy(i, n, w) == IF i = n THEN (IF w = "bad" THEN StrL("x") ELSE N(1)) ELSE Bin("+", N(i), Grp(DeepTy(i + 1, n, w)))
+TyAt(bad, i) == IF i = bad THEN StrL("wrong") ELSE N(i)
+C06 == {CaseOf("scale/C06/results/" \o ToString(n) \o "@" \o ToString(k), <<Func("wide", <<>>, [i \in 1..n |-> "int"], <<RetS([i \in 1..n |-> TyAt(k, i)])>>), Def([i \in 1..n |-> Nm("r", i)], <<CallE("wide", <<>>)>>)>>)
+        : n \in {3, 4, 5, 10, 11}, k \in {0, 1, 3, 4, 5, 10, 11}}
+       \cup {CaseOf("scale/C06/forward/" \o ToString(n) \o "@" \o ToString(k), <<Func("src", <<>>, [i \in 1..n |-> IF i = k THEN "string" ELSE "int"], <<RetS([i \in 1..n |-> TyAt(k, i)])>>),
+                                                                                  Func("fwd", <<>>, [i \in 1..n |-> "int"], <<RetS(<<CallE("src", <<>>)>>)>>)>>) : n \in {4, 5, 10}, k \in {0, 1, 4, 5, 10}}
+       \cup {CaseOf("scale/C06/args/" \o ToString(n) \o "@" \o ToString(k), <<Func("wide", [i \in 1..n |-> Param(Nm("p", i), "int")], <<>>, <<Print1(V("p1"))>>), ExprS(CallE("wide", [i \in 1..n |-> TyAt(k, i)]))>>)
+              : n \in {4, 10, 11, 12}, k \in {0, 1, 4, 10, 11, 12}}
+       \cup {CaseOf("scale/C06/elems/" \o ToString(n) \o "@" \o ToString(k), <<Def1("s", SliceLit("int", [i \in 1..n |-> TyAt(k, i)])), Print1(LenE(V("s")))>>) : n \in {4, 10, 11, 17, 33}, k \in {0, 1, 4, 10, 11, 17, 33}}
+       \cup {CaseOf("scale/C06/values/" \o ToString(n) \o "@" \o ToString(k), <<VarDef([i \in 1..n |-> Nm("v", i)], "int", [i \in 1..n |-> TyAt(k, i)])>>) : n \in {4, 10, 11}, k \in {0, 1, 4, 10, 11}}
+       \cup {CaseOf("scale/C06/assign/" \o ToString(n) \o "@" \o ToString(k), <<VarDef([i \in 1..n |-> Nm("v", i)], "int", <<>>), Asg([i \in 1..n |-> Nm("v", i)], [i \in 1..n |-> TyAt(k, i)])>>) : n \in {4, 10, 11}, k \in {0, 1, 4, 10, 11}}
+       \cup {CaseOf("scale/C06/conds/" \o ToString(n) \o "@" \o ToString(k), <<If([i \in 1..n |-> Branch(IF i = k THEN N(1) ELSE CmpE("==", N(i), N(0)), <<L("b")>>)], <<>>)>>) : n \in {4, 10, 13, 17, 33}, k \in {0, 1, 4, 10, 13, 17, 33}}
+       \cup {CaseOf("scale/C06/cases/" \o ToString(n) \o "@" \o ToString(k), <<Switch(N(1), [i \in 1..n |-> CaseB(TyAt(k, i), <<L("c")>>)], <<>>, FALSE)>>) : n \in {4, 10, 13, 17, 33}, k \in {0, 1, 4, 10, 13, 17, 33}}
+       \cup {CaseOf("scale/C06/deep/" \o ToString(n) \o "-" \o w, <<Def1("r", DeepTy(1, n, w))>>) : n \in {5, 9, 17, 33}, w \in {"ok", "bad"}}
+
+\* ---- C07: scopes nested deeply, names from far outside, many siblings ----------------------------------------------------
+RECURSIVE Wrap(_, _, _)
+Wrap(d, n, inner) == IF d > n THEN inner ELSE <<If1(CmpE(">", V("top"), N(0)), Wrap(d + 1, n, inner))>>
+LoopWith(j) == <<For3(Def1("i", N(0)), CmpE("<", V("i"), N(3)), Inc("i"), <<If1(CmpE("==", V("i"), N(1)), <<IF j = "continue" THEN ContinueS ELSE BreakS>>), PrintS(<<StrL("i"), V("i"), V("top")>>)>>)>>
+C07 == {CaseOf("scale/C07/deeploop/" \o ToString(d) \o "/" \o j \o "/" \o c, IF c = "top" THEN <<Def1("top", N(5))>> \o Wrap(1, d, LoopWith(j)) \o <<L("end")>>
+                                                                                   ELSE <<Def1("top", N(5)), Func("f", <<>>, <<>>, Wrap(1, d, LoopWith(j))), ExprS(CallE("f", <<>>)), L("end")>>)
+        : d \in {5, 6, 7, 8, 9, 12}, j \in {"break", "continue"}, c \in {"top", "func"}}
+       \cup {CaseOf("scale/C07/deepjumpnoloop/" \o ToString(d), <<Def1("top", N(5))>> \o Wrap(1, d, <<BreakS>>)) : d \in {1, 8, 9, 12}}
+       \cup {CaseOf("scale/C07/deepdef/" \o ToString(d), <<Def1("top", N(5))>> \o Wrap(1, d, <<Def1("inner", N(1)), Print1(Bin("+", V("inner"), V("top")))>>) \o <<Def1("inner", N(2)), Print1(V("inner"))>>) : d \in {8, 9, 12}}
+       \cup {CaseOf("scale/C07/deepuse-after/" \o ToString(d), <<Def1("top", N(5))>> \o Wrap(1, d, <<Def1("inner", N(1))>>) \o <<Print1(V("inner"))>>) : d \in {1, 8, 9, 12}}
+       \cup {CaseOf("scale/C07/deepreturn/" \o ToString(d), <<Def1("top", N(5)), Func("f", <<>>, <<"int">>, Wrap(1, d, <<RetS(<<N(1)>>)>>) \o <<RetS(<<N(2)>>)>>), Print1(CallE("f", <<>>))>>) : d \in {8, 9, 12}}
+       \cup {CaseOf("scale/C07/siblings/" \o ToString(n), <<Def1("top", N(5))>> \o SeqN(n, LAMBDA i : If1(CmpE(">", V("top"), N(0)), <<Def1("same", N(i)), Print1(V("same"))>>)) \o <<Def1("same", N(0)), Print1(V("same"))>>) : n \in {9, 10, 11, 17}}
+       \cup {CaseOf("scale/C07/manyvars/" \o ToString(n) \o "/" \o w, SeqN(n, LAMBDA i : Def1(Nm("v", i), N(i))) \o <<IF w = "ok" THEN Print1(V(Nm("v", n))) ELSE IF w = "undef" THEN Print1(V(Nm("v", n + 1))) ELSE Def1(Nm("v", n), N(0))>>)
+              : n \in {9, 10, 11, 17, 33}, w \in {"ok", "undef", "redef"}}
+       \cup {CaseOf("scale/C07/manyfuncs/" \o ToString(n) \o "/" \o w, SeqN(n, LAMBDA i : Func(Nm("g", i), <<>>, <<"int">>, <<RetS(<<N(i)>>)>>))
+                                                                          \o <<IF w = "ok" THEN Print1(CallE(Nm("g", n), <<>>)) ELSE IF w = "undef" THEN Print1(CallE(Nm("g", n + 1), <<>>)) ELSE Func(Nm("g", n), <<>>, <<>>, <<L("dup")>>)>>)
+              : n \in {9, 10, 11, 17}, w \in {"ok", "undef", "redef"}}
+
+\* ---- C08: long values --------------------------------------------------------------------------------------------------
+RECURSIVE Rep(_, _)
+Rep(s, n) == IF n = 0 THEN "" ELSE IF n % 2 = 1 THEN s \o Rep(s, n - 1) ELSE LET h == Rep(s, n \div 2) IN h \o h
+LongVal(n) == SubSeq(Rep("ab  c*d? -e #f;g ", (n \div 17) + 1), 1, n - 1) \o "Z"
+C08 == {CaseOf("scale/C08/long/" \o ToString(n), <<Def1("s", StrL(LongVal(n))), PrintS(<<LenE(V("s")), IndexE(V("s"), N(n - 1)), Substr(V("s"), N(n - 5), NoneN), CmpE("==", V("s"), StrL(LongVal(n))), CmpE("==", Bin("+", V("s"), StrL("x")), V("s"))>>),
+                                                    Func("pass", <<Param("p", "string")>>, <<"string">>, <<RetS(<<V("p")>>)>>), Def1("t", CallE("pass", <<V("s")>>)), Def1("sl", SliceLit("string", <<V("t")>>)),
+                                                    PrintS(<<LenE(V("t")), LenE(IndexE(V("sl"), N(0))), LenE(Bin("+", V("s"), V("t")))>>), Print1(V("s"))>>) : n \in (IF Quick THEN {100, 1000, 5000} ELSE {100, 1000, 4095, 4096, 4097, 5000, 9000})}
+All == C01 \cup C02 \cup C03 \cup C04 \cup C06 \cup C07 \cup C08 \cup C17 \cup C18
 ASSUME ndJsonSerialize("fam.ndjson", SetToSeq(All))
 =============================================================================
